@@ -497,7 +497,7 @@ static Verdict run_C12(const Scn &s) {
     // is then decrypted with the wrong mode, with memory-layout dependent results; that is C05's finding, not a
     // verify/decrypt disagreement, so such inputs are left to C05
     Diff d = diff_files(B.F, F2, B.e.hmode);
-    if (d.only_byte8 && memcmp(key, B.e.key, 16) == 0) return skipv("known-finding-K1-region(left-to-C05)");
+    if (d.only_byte8 && F2[8] <= 4 && memcmp(key, B.e.key, 16) == 0) return skipv("known-finding-K1-region(left-to-C05)");
   }
   VD r = verify_and_decrypt(s, F2, key, B.T, HANG_VIOLATION);
   Verdict v;
